@@ -49,9 +49,191 @@ func allTerms(p *Program) []Term {
 	return out
 }
 
+// termSlots returns the address of every place a term sits in (so that it can be replaced).
+func termSlots(p *Program) []*Term {
+	var out []*Term
+	var walk func(s *Term)
+	walk = func(s *Term) {
+		out = append(out, s)
+		switch x := (*s).(type) {
+		case *Recv:
+			walk(&x.K)
+		case *Case:
+			for i := range x.Brs {
+				walk(&x.Brs[i].K)
+			}
+		case *New:
+			walk(&x.Body)
+			walk(&x.K)
+		case *Wait:
+			walk(&x.K)
+		case *Split:
+			walk(&x.K)
+		case *Drop:
+			walk(&x.K)
+		case *Print:
+			walk(&x.K)
+		case *Shift:
+			walk(&x.K)
+		}
+	}
+	for _, d := range p.Defs {
+		walk(&d.Body)
+	}
+	for _, q := range p.Procs {
+		if q.Exec == "" {
+			walk(&q.Body)
+		}
+	}
+	return out
+}
+
+// mutateStructure: edits against the structural rules rather than the types - a use removed
+// (a linear name left over), a use doubled (contraction without split), a branch omitted, a
+// drop turned into a wait or the other way round, a mode changed.
+func mutateStructure(p *Program, intn func(int) int) string {
+	slots := termSlots(p)
+	pick := func(ok func(Term) bool) *Term {
+		var c []*Term
+		for _, s := range slots {
+			if ok(*s) {
+				c = append(c, s)
+			}
+		}
+		if len(c) == 0 {
+			return nil
+		}
+		return c[intn(len(c))]
+	}
+	// names of top-level processes: leaving one of those unused is legal (an unconsumed root)
+	top := map[string]bool{}
+	for _, q := range p.Procs {
+		for _, n := range q.Names {
+			top[n] = true
+		}
+	}
+	switch intn(6) {
+	case 0: // a consuming use removed: `wait x; K` / `drop x; K` becomes K
+		s := pick(func(t Term) bool {
+			switch x := t.(type) {
+			case *Wait:
+				return !top[x.X]
+			case *Drop:
+				return !top[x.X]
+			}
+			return false
+		})
+		if s == nil {
+			return ""
+		}
+		switch x := (*s).(type) {
+		case *Wait:
+			*s = x.K
+			return "wait " + x.X + " removed (name left unused)"
+		case *Drop:
+			*s = x.K
+			return "drop " + x.X + " removed (name left unused)"
+		}
+	case 1: // a use doubled
+		s := pick(func(t Term) bool {
+			switch x := t.(type) {
+			case *Wait:
+				return true
+			case *Call:
+				return len(x.Args) >= 2
+			case *Drop:
+				return true
+			}
+			return false
+		})
+		if s == nil {
+			return ""
+		}
+		switch x := (*s).(type) {
+		case *Wait:
+			*s = &Wait{X: x.X, K: &Wait{X: x.X, K: x.K}}
+			return "wait " + x.X + " doubled"
+		case *Drop:
+			*s = &Drop{X: x.X, T: x.T, K: &Drop{X: x.X, T: x.T, K: x.K}}
+			return "drop " + x.X + " doubled"
+		case *Call:
+			i := intn(len(x.Args) - 1)
+			old := x.Args[i+1]
+			if top[old] {
+				return ""
+			}
+			x.Args[i+1] = x.Args[i]
+			return fmt.Sprintf("call %s: argument %s replaced by a second %s", x.F, old, x.Args[i])
+		}
+	case 2: // a branch omitted
+		s := pick(func(t Term) bool { x, ok := t.(*Case); return ok && len(x.Brs) >= 2 })
+		if s == nil {
+			return ""
+		}
+		x := (*s).(*Case)
+		i := intn(len(x.Brs))
+		old := x.Brs[i].Label
+		x.Brs = append(append([]Branch{}, x.Brs[:i]...), x.Brs[i+1:]...)
+		return fmt.Sprintf("case %s: branch %s omitted", x.From, old)
+	case 3: // drop <-> wait
+		s := pick(func(t Term) bool {
+			switch t.(type) {
+			case *Wait, *Drop:
+				return true
+			}
+			return false
+		})
+		if s == nil {
+			return ""
+		}
+		switch x := (*s).(type) {
+		case *Wait:
+			*s = &Drop{X: x.X, T: &Ty{K: KUnit}, K: x.K}
+			return "wait " + x.X + " turned into drop"
+		case *Drop:
+			*s = &Wait{X: x.X, K: x.K}
+			return "drop " + x.X + " turned into wait"
+		}
+	case 4: // the mode of one annotation changed
+		sites := annotationSites(p)
+		if len(sites) == 0 {
+			return ""
+		}
+		st := sites[intn(len(sites))]
+		n := *(*st)
+		old := n.M
+		n.M = []string{"lin", "aff", "mul", "rep"}[intn(4)]
+		if n.M == old || n.K == KNamed {
+			return ""
+		}
+		*st = &n
+		return fmt.Sprintf("mode of annotation %s changed from %q to %q", (*st).Text(), old, n.M)
+	default: // the mode of a type definition changed
+		if len(p.Types) == 0 {
+			return ""
+		}
+		i := intn(len(p.Types))
+		n := *p.Types[i].T
+		old := n.M
+		n.M = []string{"lin", "aff", "mul", "rep"}[intn(4)]
+		if n.M == old {
+			return ""
+		}
+		p.Types[i].T = &n
+		p.TEnv[p.Types[i].Name] = &n
+		return fmt.Sprintf("mode of type %s changed from %q to %q", p.Types[i].Name, old, n.M)
+	}
+	return ""
+}
+
 // Mutate applies one mutation in place and describes it ("" if none applied).
 func Mutate(p *Program, intn func(int) int) string {
-	switch intn(15) {
+	switch intn(20) {
+	case 15, 16, 17, 18, 19:
+		if d := mutateStructure(p, intn); d != "" {
+			return "structure: " + d
+		}
+		return ""
 	case 13, 14: // a case lists one label twice (and so may hide a missing one)
 		var cands []*Case
 		for _, t := range allTerms(p) {
